@@ -170,6 +170,49 @@ func genProgs(r *rng, n int, rows int, nextToken *int32, nextKey *int32, allowIn
 	return progs
 }
 
+// genDuel: two short transactions on one row - a reader through one access path against a writer
+// of the same row. The runs are a few hundred steps long, so a scheduler with a handful of change
+// points puts the writer's whole statement and commit between two particular steps of the reader
+// (index look-up -> row fetch) far more often than in the general programs.
+func genDuel(r *rng, rows int, nextToken *int32, allowInsDel bool) []TxnProg {
+	k := int32(1 + r.Intn(rows))
+	var rd PStmt
+	switch r.Intn(4) {
+	case 0:
+		rd = PStmt{Kind: "readv", Token: k, Path: []string{"", "point"}[r.Intn(2)]}
+	case 1:
+		rd = PStmt{Kind: "read", K: k, Path: []string{"", "point", "scan"}[r.Intn(3)]}
+	case 2:
+		rd = PStmt{Kind: "readrange", K: k, K2: k}
+		if k < int32(rows) && r.Chance(0.5) {
+			rd.K2 = k + 1
+		}
+	default:
+		rd = PStmt{Kind: "readv", Token: k, Path: "point"}
+	}
+	reader := TxnProg{Stmts: []PStmt{rd}}
+	if r.Chance(0.4) {
+		reader.Stmts = append(reader.Stmts, rd) // the same read again: must see the same committed value
+	}
+	*nextToken++
+	wr := PStmt{Kind: "write", K: k, Token: *nextToken}
+	if r.Chance(0.2) {
+		wr.Path = "scan"
+	}
+	if allowInsDel && r.Chance(0.2) {
+		wr = PStmt{Kind: "delete", K: k}
+	}
+	writer := TxnProg{Stmts: []PStmt{wr}, Abort: r.Chance(0.15)}
+	if r.Chance(0.3) {
+		*nextToken++
+		writer.Stmts = append(writer.Stmts, PStmt{Kind: "write", K: k, Token: *nextToken})
+	}
+	if r.Chance(0.5) {
+		return []TxnProg{reader, writer}
+	}
+	return []TxnProg{writer, reader}
+}
+
 // ---------------------------------------------------------------- oracles over a history
 
 type txnOracle struct {
